@@ -38,19 +38,42 @@ def orders(spec: NetSpec):
 
 
 def variant_sets(tier):
-    full = [(s, c, m, p, False) for s in ("SX",) for c in (0, 1, 2) for m in (False, True) for p in (False, True)]
-    full += [("MX", c, True, True, False) for c in (0, 1, 2)]
-    full += [("SX", c, True, False, True) for c in (0, 1, 2)] + [("MX", 0, False, False, True), ("MX", 2, True, True, True)]
-    reduced = [("SX", 1, True, False, False), ("SX", 2, True, True, False), ("MX", 2, False, False, False),
-               ("SX", 0, False, False, True)]
+    """(sym, compact, more_out, symbolic parameters, positivity-init, history).  Compactness values outside
+    {0, 1, 2} are documented aliases: <= 0 is level 0, > 1 is level 2."""
+    full = [(s, c, m, p, False, 0) for s in ("SX",) for c in (0, 1, 2) for m in (False, True) for p in (False, True)]
+    full += [("MX", c, True, True, False, 0) for c in (0, 1, 2)]
+    full += [("SX", c, True, False, True, 0) for c in (0, 1, 2)] + [("MX", 0, False, False, True, 0), ("MX", 2, True, True, True, 0)]
+    full += [("SX", -1, True, False, False, 0), ("SX", 3, True, True, False, 0), ("MX", 7, False, False, False, 0)]
+    full += [("SX", c, False, False, False, 1) for c in (0, 1, 2)] + [("MX", 0, True, False, False, 1), ("SX", 2, True, False, True, 1),
+                                                                        ("SX", 0, False, False, False, 2), ("MX", 2, True, False, False, 2)]
+    reduced = [("SX", 1, True, False, False, 0), ("SX", 2, True, True, False, 0), ("MX", 2, False, False, False, 0),
+               ("SX", 0, False, False, True, 0), ("SX", 1, False, False, False, 1)]
     if tier != "quick":
-        full = [(s, c, m, p, o) for s in ("SX", "MX") for c in (0, 1, 2) for m in (False, True) for p in (False, True)
+        full = [(s, c, m, p, o, 0) for s in ("SX", "MX") for c in (0, 1, 2) for m in (False, True) for p in (False, True)
                 for o in (False, True)]
-        reduced = [(s, c, True, p, o) for s in ("SX", "MX") for c in (0, 1, 2) for p in (False, True) for o in (False, True)]
+        full += [(s, c, m, False, False, 0) for s in ("SX", "MX") for c in (-3, -1, 3, 7) for m in (False, True)]
+        full += [(s, c, m, False, o, h) for s in ("SX", "MX") for c in (0, 1, 2) for m in (False, True) for o in (False, True)
+                 for h in (1, 2)]
+        reduced = [(s, c, True, p, o, 0) for s in ("SX", "MX") for c in (0, 1, 2) for p in (False, True) for o in (False, True)]
+        reduced += [(s, c, False, False, False, 1) for s in ("SX", "MX") for c in (0, 1, 2)]
     return full, reduced
 
 
-def compile_variant(spec, order, sym, compact, more_out, symbolic, opts, P):
+def user_conditions(built, XX):
+    """Caller-supplied symbols, with the keys of every element's dictionary in REVERSED declaration order
+    (speed before density, ...): a legal way of passing initial conditions."""
+    ic = {}
+    per = {}
+    for key, var, n, role in built.spec.variables():
+        per.setdefault(key, []).append((var, n))
+    for key, lst in per.items():
+        ic[built.obj[key]] = {var: XX.sym(f"{var}_{key}_user", n, 1) for var, n in reversed(lst)}
+    return ic
+
+
+def compile_variant(spec, order, sym, compact, more_out, symbolic, opts, P, hist=0):
+    """hist 0: one step with the engine's own symbols; 1: that step, then a second step with caller-supplied
+    symbols (reversed key order); 2: a single step with caller-supplied symbols."""
     eng = env.casadi_engine(sym)
     XX = getattr(cs, sym)
     syms = None
@@ -59,11 +82,25 @@ def compile_variant(spec, order, sym, compact, more_out, symbolic, opts, P):
         syms = {p: XX.sym(p) for p in PSYM}
         override = {(f"L{i}", p): syms[p] for i in range(len(spec.links)) for p in PSYM}
     built = build(spec, order=order, override=override)
-    built.net.step(engine=eng, **P, **(INIT_OPTS if opts else {}))
+    o = INIT_OPTS if opts else {}
+    if hist in (0, 1):
+        built.net.step(engine=eng, **P, **o)
+    if hist in (1, 2):
+        built.net.step(init_conditions=user_conditions(built, XX), engine=eng, **P, **o)
     kw = dict(P) if more_out else {}
     if symbolic:
         kw["parameters"] = syms
     return eng.to_function(built.net, compact=compact, more_out=more_out, **kw), built
+
+
+def observed_var_order(built):
+    out = {}
+    for key, el in built.obj.items():
+        if key.startswith("n"):
+            continue
+        out[key] = {"state": list(el.states or {}), "action": list(el.actions or {}),
+                    "disturbance": list(el.disturbances or {})}
+    return out
 
 
 def two_numpy_steps(sp, order, val, P, opts):
@@ -87,22 +124,27 @@ def check_spec(spec: NetSpec, label, st: Stats, plan):
     for oi, (oname, order) in enumerate(orders(spec)):
         level_values = {}
         np_cache = {}
-        for (sym, compact, more_out, symbolic, opts) in (full if oi == 0 else reduced):
+        for (sym, compact, more_out, symbolic, opts, hist) in (full if oi == 0 else reduced):
             st.inc("transitions", 2)
             st.inc("functions_compiled")
             case = {"spec": spec.describe(), "config": label, "P": P, "order": oname, "sym": sym, "compact": compact,
-                    "more_out": more_out, "symbolic": symbolic, "opts": opts}
-            tag = f"{sym} compact={compact} more_out={more_out} params={symbolic} posinit={opts} order={oname}"
+                    "more_out": more_out, "symbolic": symbolic, "opts": opts, "hist": hist}
+            tag = (f"{sym} compact={compact} more_out={more_out} params={symbolic} posinit={opts} order={oname} "
+                   f"history={('step', 'step;step(user symbols)', 'step(user symbols)')[hist]}")
 
             def bad(sig, msg):
                 problems.append((sig, f"{tag}: {msg}", case))
 
             try:
-                F, built = compile_variant(spec, order, sym, compact, more_out, symbolic, opts, P)
+                F, built = compile_variant(spec, order, sym, compact, more_out, symbolic, opts, P, hist)
             except Exception as e:  # noqa: BLE001
                 bad(f"C04/exception/{exc_site(e)}/{type(e).__name__}", exc_text(e))
                 continue
-            lay = Layout(spec, order=order, compact=compact, more_out=more_out, pnames=PSYM if symbolic else ())
+            lay = Layout(spec, order=order, compact=compact, more_out=more_out, pnames=PSYM if symbolic else (),
+                         var_order=observed_var_order(built))
+            if lay.var_order_problem:
+                bad("C04/variables", lay.var_order_problem)
+                continue
             nin, sin, nout, sout = names_sizes(F)
             ok = True
             if nin != lay.in_names:
@@ -151,7 +193,7 @@ def check_spec(spec: NetSpec, label, st: Stats, plan):
                                 f"result scalar {slot} = {x!r}, NumPy twin {e!r} at {vlabel}")
                             break
                 # level equivalence (same sym/params/opts/more_out, different compactness)
-                lk = (sym, more_out, symbolic, opts, vlabel)
+                lk = (sym, more_out, symbolic, opts, hist, vlabel)
                 prev = level_values.get(lk)
                 if prev is None:
                     level_values[lk] = (compact, o)
@@ -207,10 +249,15 @@ def worker(item):
 def plans(tier, seed):
     pal = (seed + 1) % 3
     if tier == "quick":
-        specs = [(lab, s) for _, lab, s in all_specs(3, 3, 1, pal)]
-        jobs = [({"pset": 0, "d": 0, "variants": variant_sets("quick")}, specs)]
-        bounds = {"shapes": "(n,m)<=(3,3)", "config_deviation": 1, "orders": 3, "vectors": "2 element-distinct base vectors",
-                  "palette": pal}
+        specs1 = [(lab, s) for _, lab, s in all_specs(3, 3, 1, pal)]
+        specs0 = [(lab, s) for _, lab, s in all_specs(3, 3, 0, pal)]
+        core = [("SX", 0, True, False, False, 0), ("SX", 1, True, True, False, 0), ("SX", 2, True, False, False, 0),
+                ("MX", 2, False, True, False, 0), ("SX", 1, False, False, True, 0), ("SX", 0, False, False, False, 1),
+                ("MX", 1, True, False, False, 1), ("SX", 3, False, False, False, 0)]
+        jobs = [({"pset": 0, "d": 0, "variants": (core, core[1:3])}, specs1),
+                ({"pset": 0, "d": 0, "variants": variant_sets("quick")}, specs0)]
+        bounds = {"shapes": "(n,m)<=(3,3): c<=1 with 8 core variants; base+uniform configurations with 38 variants",
+                  "orders": 3, "vectors": "2 element-distinct base vectors", "palette": pal}
     else:
         a = [(lab, s) for _, lab, s in all_specs(3, 4, 1, pal)]
         b = [(lab, s) for _, lab, s in all_specs(4, 4, 0, pal) if s.n == 4]
@@ -241,7 +288,7 @@ def explore(tier, seed, nproc):
 def replay(case):
     spec = NetSpec.from_json(case["spec"])
     st = Stats()
-    v = (case["sym"], case["compact"], case["more_out"], case["symbolic"], case["opts"])
+    v = (case["sym"], case["compact"], case["more_out"], case["symbolic"], case["opts"], case.get("hist", 0))
     plan = {"pset": MODEL_PARAMS.index(case["P"]) if case["P"] in MODEL_PARAMS else 0, "d": 0,
             "variants": ([v], [v])}
     problems = check_spec(spec, case.get("config", "?"), st, plan)
